@@ -12,7 +12,15 @@ Packet.setMTU on LIVE connections (connsim's optional event "setmtu", model unit
 created under one MTU keeps running while the MTU is lowered or raised, with messages queued and re-sends pending
 across the change; every datagram emitted after the change is measured against the NEW MTU-28, messages that fit
 together under the new MTU travel together, boundary lengths of the new MTU leave the queue, nothing raises and
-nothing queued is lost (one endpoint histories "live-mtu" and two-endpoint sessions)."""
+nothing queued is lost (one endpoint histories "live-mtu" and two-endpoint sessions).
+LONG-LIVED connections (histories "wrap" / "long", net sessions "wrap-*"): the 16-bit message and datagram counters start
+just below the ring wrap 65535 -> 1 (model side: unit conn_run_from) and cross it while messages are queued, several per
+datagram, fragmented ones included, in all retry modes and both roles; thorough: one history that queues 70000 messages
+on one connection from the initial counters.  Same oracle as everywhere (nothing raises, nothing queued is lost, every
+datagram within the MTU and decodable); in addition, after EVERY event of every history the connection's sequence
+counters (seq_sending, seq_message, seq_fragment) and the sequence numbers of the queued messages must still be
+members of the ring: SeqNum instances in 1..65535 (0 only while unused) — a counter that silently left the ring is
+reported where it happens, long before a struct.pack can fail."""
 import struct, binascii, collections
 from harness import lib
 from harness import connsim as S
@@ -24,7 +32,9 @@ RULE = ("codec: random + boundary (0/1/max of every header field, 0/1/2/254/255/
         "packing: send/tick histories with empty payloads, hundreds of tiny messages, lengths MAX_PAYLOAD_SIZE-3..+2, "
         "sums straddling the datagram capacity, all retry modes, client and server role, MTU sweep "
         "(thorough: every MTU 512..1500 for the boundary lengths); non-trivial = a history in which a datagram is "
-        "within 5 bytes of MTU-28, or carries 255 messages, or leaves messages queued for a later datagram")
+        "within 5 bytes of MTU-28, or carries 255 messages, or leaves messages queued for a later datagram; "
+        "long-lived connections: message / datagram counters started 0..300 below 65535 and driven across the wrap with 1..60 "
+        "messages per datagram (thorough: 70000 messages from the initial counters), ring membership of every counter after every event")
 ASSUMPTIONS = [
     "AEAD correctness: open k iv aad (seal k iv aad p) = Some p and |seal ... p| = |p| + 16 (AES-GCM of the cryptography package); "
     "crc is any function into 0..2^32-1 (premises of the closed round-trip theorems; instantiated by a toy scheme in Coq, "
@@ -40,6 +50,25 @@ TRUSTED = ["harness/packlib.py decode_datagram: independent struct/AESGCM/CRC de
 
 T = S.TICKS
 TYPES = [0, 1, 2, 3, 4, 5, 6, 7]
+RING = 65535
+
+
+def ring_probe(conn):
+    """the connection's sequence counters and the numbers of the queued / pending messages are members of the ring:
+    SeqNum instances within 1..65535 (0 only for a counter that was never advanced).  None when fine."""
+    from mpgameserver.connection import SeqNum
+    for name in ("seq_sending", "seq_message", "seq_fragment"):
+        v = getattr(conn, name)
+        if not isinstance(v, SeqNum) or not (0 <= int(v) <= RING):
+            return {"counter": name, "type": type(v).__name__, "value": int(v)}
+    for m in conn.outgoing_messages:
+        if not (1 <= int(m.seq) <= RING):
+            return {"counter": "queued message seq", "type": type(m.seq).__name__, "value": int(m.seq)}
+    for name in ("pending_acks", "pending_retry_msg"):
+        for k in getattr(conn, name):
+            if not (1 <= int(k) <= RING):
+                return {"counter": name + " key", "type": type(k).__name__, "value": int(k)}
+    return None
 
 
 # ------------------------------------------------------------------ implementation runners
@@ -378,6 +407,7 @@ class Hist:
         self.sent = []            # (payload, retry)
         self.groups = []          # (first index into sent, count, tick event index): bursts expected in ONE datagram
         self.complete = True      # enough ticks for everything queued to be sent at least once (see boundary())
+        self.seq0 = None          # optional [datagram counter, message counter] the connection starts with
 
     def send(self, payload, retry=0, cb=None):
         self.events.append(("send", payload, retry, cb))
@@ -577,8 +607,62 @@ def gen_histories(run):
         h.tick(10)
         return h
 
+    def wrap(role, mtu, retry, off_d, off_m, per):
+        """a long-lived connection: the counters start off_d / off_m below the ring maximum and the history queues enough
+        messages (per of them per tick: several per datagram; every 7th burst also a fragmented one, whose fragments consume
+        message numbers; empty payloads too) to carry the MESSAGE counter across 65535 -> 1 with a margin"""
+        h = Hist(role, mtu, "wrap")
+        h.seq0 = [RING - off_d, RING - off_m]
+        h.complete = retry == 0
+        mp = cap(mtu)
+        k = 0
+        queued = 0
+        burst = 0
+        acct = 0
+        while queued < off_m + 3 * per + 12:
+            for _ in range(per):
+                c = r.random()
+                n = 0 if c < 0.2 else r.randrange(0, 9) if c < 0.8 else r.randrange(0, min(mp, 200))
+                h.send(fill(k, n), retry, r.choice([None, None, k]))
+                k += 1
+                queued += 1
+                acct += n + 5
+            if burst % 7 == 3:
+                h.send(fill(k, mp + 1 + r.randrange(0, 40)), retry); k += 1; queued += 2
+                acct += 2 * (mp + 5)
+            burst += 1
+            h.tick(1)
+        # enough ticks for the queue to drain: while something is queued a datagram carries at least MAX_PAYLOAD_SIZE-205 accounted
+        # bytes (every unfragmented message here is at most 200+5) or 255 messages
+        h.tick(acct // (mp - 205) + queued // 255 + (6 if retry == 0 else 12))
+        return h
+
+    def long_history(role, mtu, total, per):
+        """one connection, initial counters, `total` messages queued (per of them per tick)"""
+        h = Hist(role, mtu, "long")
+        k = 0
+        while k < total:
+            for _ in range(per):
+                h.send(fill(k, k % 7), 0)
+                k += 1
+            h.tick(1)
+        h.tick(5)
+        return h
+
     quick_mtus = [512, 513, 576, 1095, 1096, 1097, 1280, 1499, 1500] + [r.randrange(512, 1501) for _ in range(12)]
     mtus = list(range(512, 1501)) if run.thorough() else quick_mtus
+    # long-lived connections: the message (and datagram) counter crosses the ring wrap
+    for n in range(48 if run.thorough() else 12):
+        role = ["client", "server"][n % 2]
+        retry = [0, 1, -1][(n // 2) % 3]
+        off_m = r.choice([0, 1, 2, 5, 40, r.randrange(0, 300)])
+        off_d = r.choice([0, 1, 3, 20, r.randrange(0, 300)])
+        hs.append(wrap(role, r.choice([512, 1096, 1500, r.randrange(512, 1501)]), retry, off_d, off_m, r.choice([1, 2, 5, 20, 60])))
+    if run.thorough():
+        # (server role: a one-endpoint history has a silent peer, and the client gives up after 5 s of silence — send() is then a
+        # no-op; the client role crosses the wrap through the seq0 histories above and the two-endpoint sessions)
+        hs.append(long_history("server", 1500, 70000, 150))
+        hs.append(long_history("server", 512, 66000, 40))
     for mtu in mtus:
         role = r.choice(["client", "server"])
         hs.append(boundary(role, mtu, r.choice([0, 1, -1]) if run.thorough() else 0))
@@ -612,11 +696,13 @@ def reassemble(msgs):
     message seq are dropped the way the receiver drops them"""
     out = []
     frags = {}
-    seen = set()
-    for seq, typ, p in msgs:
-        if seq in seen:
+    seen = {}
+    for pos, (seq, typ, p) in enumerate(msgs):
+        # a repetition of a message number is a re-send — unless more than 30000 messages were emitted in between: then the
+        # 16-bit counter has been round the ring and the number belongs to a new message (long-lived connections)
+        if seq in seen and pos - seen[seq] <= 30000:
             continue
-        seen.add(seq)
+        seen[seq] = pos
         if typ == 6:
             out.append(bytes(p))
         elif typ == 7:
@@ -630,11 +716,21 @@ def reassemble(msgs):
 
 def check_history(run, h):
     """correspondence + oracle for one history; returns False when a violation was recorded"""
-    res = P.drive(run, h.role, h.events, key=7, mtu=h.mtu, every=len(h.events) < 120)
+    res = P.drive(run, h.role, h.events, key=7, mtu=h.mtu, every=len(h.events) < 120, seq0=h.seq0, probe=ring_probe)
     case = {"role": h.role, "mtu": h.mtu, "kind": h.label, "events": P.short_events(h.events)[:40],
             "n_events": len(h.events)}
-    run.compare("conn_run_mtu" if any(e[0] == "setmtu" for e in h.events) else "conn_run",
+    if h.seq0 is not None:
+        case["seq0"] = list(h.seq0)
+    run.compare("conn_run_mtu" if any(e[0] == "setmtu" for e in h.events) else "conn_run_from" if h.seq0 is not None else "conn_run",
                 [case], [None if res["agree"] else res["diff"]], [None])
+    ring_ok = True
+    if res["probe"]:
+        # reported once per history; the rest of the oracle still runs (so that what the drifted counter leads to shows up too)
+        n, why = res["probe"][0]
+        run.oracle_violation("sequence-counter-left-its-ring",
+                             dict(case, event=n, ev=P.short_events([h.events[n]])[0], **why,
+                                  queued_before=sum(1 for e in h.events[:n] if e[0] == "send")), "ConnectionBase sequence counters")
+        ring_ok = False
     kb = res["keys"].bytes_of(7)
     mp = h.mtu - 66
     limit = h.mtu - 28
@@ -704,24 +800,43 @@ def check_history(run, h):
                                       carried=len(here)), "_build_packet_impl")
             return False
         nontrivial = nontrivial or cnt >= 2
+    if h.seq0 is not None or h.label == "long":
+        # did the message counter really cross the wrap, with messages queued AND emitted on both sides of it?
+        seqs = [s for _, s, t, p in emitted]
+        m0 = h.seq0[1] if h.seq0 is not None else 0
+        if (m0 == RING or any(x > RING - 400 for x in seqs)) and any(x < 400 for x in seqs):
+            nontrivial = True
+            run.count("hist_message_counter_wrapped")
+        elif not h.complete:
+            # retry modes against a silent peer: the re-sends (packed first) can starve the queue; the two-endpoint wrap
+            # sessions (net_history with seq0) carry the retry modes across the wrap with acknowledgements flowing
+            run.count("hist_wrap_starved_by_resends")
+        else:
+            raise RuntimeError("wrap history did not cross the message-counter wrap: the harness is not exercising the surface: %r"
+                               % ((h.role, h.mtu, h.seq0, len(h.sent), RING in seqs, 1 in seqs, h.complete, len(h.events)),))
     if nontrivial:
         run.nt((h.label, h.role, h.mtu, len(h.events), len(h.sent)))
     run.count("hist_" + h.label)
     run.count("datagrams", sum(len(x) for x in res["raws"]))
-    return True
+    return ring_ok
 
 
-def net_history(run, mtu, frames, seed_label, mtu2=None):
+def net_history(run, mtu, frames, seed_label, mtu2=None, seq0=None):
     """two real endpoints on a loss-free simulated network (acks flow, so re-sends stop): sends in
     all retry modes from both sides; every datagram either side hands to the socket is measured and
     decoded independently; the multiset of application payloads emitted must equal the multiset queued.
     mtu2: Packet.setMTU(mtu2) is called in the middle of the session, on the live connections, right after a
-    burst (messages are queued and re-sends pending on both sides); lengths queued before the change fit both MTUs."""
+    burst (messages are queued and re-sends pending on both sides); lengths queued before the change fit both MTUs.
+    seq0 = [datagram counter, message counter] both connections start with (just below the ring wrap: the session carries
+    them across it); the ring membership of every sequence counter is probed on both connections after every frame."""
     from harness import netsim as N
     r = run.rng
     mp = mtu - 66
-    net = N.Net(run, r, {"tick": 300}, mtu=mtu)
+    net = N.Net(run, r, {"tick": 300}, mtu=mtu, seq0=seq0)
     case = {"kind": "net", "mtu": mtu, "frames": frames, "label": seed_label}
+    if seq0 is not None:
+        case["seq0"] = list(seq0)
+    drift = None
     sends = []
     change_at = None
     mark = {"client": None, "server": None}
@@ -760,13 +875,33 @@ def net_history(run, mtu, frames, seed_label, mtu2=None):
                     retry = r.choice([0, 0, 1, -1])
                     mid = net.send(who, n, retry, with_cb=r.random() < 0.3)
                     sends.append((who, n, retry))
+                if seq0 is not None:
+                    # a floor of traffic from both sides in every frame, so that both counters of both sides do cross the wrap
+                    for who in ("client", "server"):
+                        n, retry = r.choice([0, 2, 9]), r.choice([0, 0, 1, -1])
+                        net.send(who, n, retry, with_cb=False)
+                        sends.append((who, n, retry))
             net.step()
+            for who in ("client", "server"):
+                why = ring_probe(net.ep(who).impl.conn) if drift is None else None
+                if why is not None:
+                    drift = dict(why, endpoint=who, frame=f, sends_so_far=len(sends))
         diffs = net.check_models()
     finally:
         net.close()
     case["sends"] = [[w[0], n, rt] for w, n, rt in sends][:60]
-    run.compare("conn_run" if mtu2 is None else "conn_run_mtu", [dict(case, endpoint="both")], [diffs[0] if diffs else None], [None])
+    run.compare("conn_run_mtu" if mtu2 is not None else "conn_run_from" if seq0 is not None else "conn_run",
+                [dict(case, endpoint="both")], [diffs[0] if diffs else None], [None])
     ok = True
+    if drift is not None:
+        run.oracle_violation("sequence-counter-left-its-ring", dict(case, **drift), "ConnectionBase sequence counters")
+        ok = False
+    if seq0 is not None:
+        for who in ("client", "server"):
+            c = net.ep(who).impl.conn
+            if not (int(c.seq_message) < seq0[1] and int(c.seq_sending) < seq0[0]) and drift is None:
+                raise RuntimeError("wrap session did not carry both counters of the %s across the wrap: the harness is not exercising the surface" % who)
+        run.count("net_sessions_across_the_wrap")
     for who in ("client", "server"):
         msgs = []
         for i, rec in enumerate(net.emitted[who]):
@@ -822,6 +957,12 @@ def packing(run):
     for i in range(30 if run.thorough() else 6):
         mtu = run.rng.choice([512, 1500, 1096, run.rng.randrange(512, 1501)])
         if not net_history(run, mtu, 140, i):
+            break
+    # long-lived connections, two endpoints (acks flow): both counters of both sides cross the ring wrap in mid-session
+    for i in range(12 if run.thorough() else 3):
+        mtu = run.rng.choice([512, 1500, run.rng.randrange(512, 1501)])
+        seq0 = [RING - run.rng.choice([0, 3, 30, 60]), RING - run.rng.choice([0, 1, 7, 50, 70])]
+        if not net_history(run, mtu, 140, "wrap-%d" % i, seq0=seq0):
             break
     # Packet.setMTU in the middle of a two-endpoint session (lowered / raised)
     for i, (m0, m1) in enumerate([(1500, 512), (512, 1500), (1400, 600), (640, 1300)] +
